@@ -154,7 +154,10 @@ def _leaf(rng, k, m, n, o):
             nd["gen"] = o.leaf_gen
         return nd
     if k == "Generic":
-        return {"k": "Generic", "shape": [m, n], "dt": leaf_dt(rng, o), "seed": seed(rng)}
+        nd = {"k": "Generic", "shape": [m, n], "dt": leaf_dt(rng, o), "seed": seed(rng)}
+        if m == n and m > 1 and rng.random() < 0.12:
+            nd["gen"] = "flip"  # matrix-free exchange operator whose product returns a view of its operand
+        return nd
     if k == "Sparse":
         nnz = int(rng.integers(0, max(2, (m * n) // 2 + 1)))
         clean = o.clean or rng.random() < 0.5
